@@ -337,7 +337,9 @@ def build_ocaml(topic):
 
 
 def run_model(exe, sub, lines, timeout=600):
-    p = subprocess.run([exe, sub], input="".join(l + "\n" for l in lines), stdout=subprocess.PIPE,
+    # the extracted evaluators are not tail recursive: give them an unlimited stack
+    p = subprocess.run(["bash", "-c", 'ulimit -s unlimited 2>/dev/null || ulimit -s 4000000 2>/dev/null; exec "$0" "$@"', exe, sub],
+                       input="".join(l + "\n" for l in lines), stdout=subprocess.PIPE,
                        stderr=subprocess.PIPE, timeout=timeout, text=True)
     if p.returncode != 0:
         raise SystemExit("model driver failed: " + p.stderr[-2000:])
